@@ -153,12 +153,35 @@ def r17(chk, P):
                         msg = f'returns {cnt}*{F.s(other)} with {F.s(other)} = {d}'
     chk.ob('R17.4', F.name, 'bytes-returned', ok, F.where(reads[0]), msg or 'no return of count*bytespersample found')
 
+    chk.rule('R17.7', 'a read that delivers data never answers 0: the value of the data return of ov_read_filter (the return of '
+             'frame count times bytes per frame behind vorbis_synthesis_read) is at least 1 in every state that reaches it '
+             '(K4) -- 0 is the end-of-stream answer, and a buffer too small for one frame of the link actually being '
+             'decoded must have been answered with an error before')
+    k_ = 0
+    for (e, env, v) in A.ret_states:
+        nd = F.ex[e]
+        if not nd.get('c'):
+            continue
+        r = F.ex[F.strip_casts(nd['c'][0])]
+        if not (r['k'] == 'bin' and r['op'] == '*' and cnt in (F.s(r['c'][0]), F.s(r['c'][1]))):
+            continue
+        lo = v.lo if isinstance(v, V) else None
+        okv = lo is not None and lo >= 1
+        cv = A.peek(env, r['c'][0] if F.s(r['c'][0]) == cnt else r['c'][1])
+        chk.ob('R17.7', F.name, f'data-return-positive#{k_}', okv, F.where(e),
+               f'`{F.s(e)}` is {v} ({cnt} {cv})' if okv else
+               f'`{F.s(e)}` can be {v} ({cnt} {cv}): a call that fetched and decoded data can return 0, which callers take for '
+               'end of stream -- the too-small-buffer case is not rejected for the link being decoded')
+        k_ += 1
+    chk.require(k_ >= 1, 'ov_read_filter: data return not reached by the analysis')
+
 
 def run(chk, P):
     r17(chk, P)
     chk.floor('R17.1', 6)
     chk.floor('R17.2', 12)
     chk.floor('R17.3', 2)
+    chk.floor('R17.7', 1)
     from rules import c09
 
     class Proxy:
